@@ -37,7 +37,7 @@ CHARGED = {"ARG", "LYS", "ASP", "GLU", "HIP", "HSP", "CYM", "TYM", "ASH", "GLH",
 @st.composite
 def protein_case(draw):
     ff = draw(st.sampled_from(strat.FFS))
-    desc = draw(e2e.structure(max_chains=3, nmax=5, contact=False, waters=True, variants=0.3))
+    desc = draw(e2e.structure(max_chains=3, nmax=5, contact=False, waters=True, variants=0.3, cif=True))
     hidden = False
     if len(desc["chains"]) > 1 and draw(st.integers(0, 2)) == 0:
         # hidden chain end: same chain id, no TER, OXT present on the first part
@@ -66,7 +66,9 @@ def protein_case(draw):
         if draw(st.integers(0, 4)) == 0:
             opts.append(o)
     blank = None
-    if not hidden and len(desc["chains"]) == 2 and draw(st.integers(0, 3)) == 0:
+    if desc.get("cif"):
+        res_label = "cif"
+    if not hidden and not desc.get("cif") and len(desc["chains"]) == 2 and draw(st.integers(0, 3)) == 0:
         # blank chain ids next to explicit ones: pdb2pqr names a blank chain after its TER count
         blank = draw(st.sampled_from([[" ", "A"], [" ", "B"], ["A", " "], ["B", " "], [" ", " "]]))
         for ch, cid in zip(desc["chains"], blank):
@@ -90,6 +92,7 @@ def check_protein(case):
     desc, ff, opts = case["desc"], case["ff"], case["opts"]
     s, r = e2e.run_case(desc, ff, opts)
     res.label(f"ff={ff}", "hidden-end" if case.get("hidden") else "plain-ends",
+              *(["mmcif", "multi-char-chain-ids" if desc["cif"].get("multi") else "single-char-chain-ids"] if desc.get("cif") else []),
               *[o for o in opts if o.startswith("--neutral")])  # fmt: skip
     if not r.ok:
         res.label("run-failed")
